@@ -28,11 +28,26 @@ impl Parser for Typst {
         let mut buf = Vec::new();
         let exprs = typst_tree.exprs().collect_vec();
         let exprs = convert_parbreaks(&mut buf, &exprs);
-        exprs
+        let mut tokens = exprs
             .into_iter()
             .filter_map(|ex| parse_helper.parse_expr(ex, OffsetCursor::new(&typst_document)))
             .flatten()
-            .collect_vec()
+            .collect_vec();
+
+        // Parts of a rule are not always visited in source order (`#set f(..) if c`), and for
+        // code that is still being typed (`#(a:`) typst-syntax hands out one node for two roles.
+        // Tokens must be ordered and must not overlap.
+        tokens.sort_by_key(|t| t.span.start);
+        let mut covered_until = 0;
+        tokens.retain(|t| {
+            let keep = t.span.start >= covered_until;
+            if keep {
+                covered_until = t.span.end;
+            }
+            keep
+        });
+
+        tokens
     }
 }
 
